@@ -29,6 +29,10 @@ func zzH_C14_handshake() {
 	}
 	r.tmuxPaneWidth = int32(verifNondetRange(-1, 300))
 	r.relayStatus.Store(kRelayHandshaking)
+	if r.trigger == nil {
+		r.trigger = &trzszTrigger{}
+	}
+	r.trigger.winServer = verifNondetBool()
 	act := &transferAction{Lang: "go", Version: "1.1.8", Newline: "\n"}
 	act.Confirm = verifNondetBool()
 	act.Protocol = verifNondetInt()
@@ -36,6 +40,16 @@ func zzH_C14_handshake() {
 	act.SupportDirectory = verifNondetBool()
 	act.TunnelConnected = verifNondetBool()
 	act.SupportFork = verifNondetBool()
+	win := r.trigger.winServer
+	actEnd, cfgEnd := "\n", "\n"
+	if win {
+		actEnd = "!\n" // the action for a Windows server always ends the Windows way
+		if !act.TunnelConnected {
+			act.Newline = "!\n"
+			cfgEnd = "!\n"
+		}
+	}
+	// the server's configuration as the servers build it: a JSON object with only the members that apply
 	cfg := &transferConfig{Newline: "\n", Timeout: 20}
 	cfg.Binary = verifNondetBool()
 	cfg.Directory = verifNondetBool()
@@ -46,13 +60,35 @@ func zzH_C14_handshake() {
 	cfg.MaxBufSize = int64(verifNondetInt())
 	cfg.TmuxOutputJunk = verifNondetBool()
 	cfg.TmuxPaneColumns = int32(verifNondetRange(-1, 300))
-	r.stdinBuffer.addBuffer(zzLine14("ACT", act))
-	r.stdoutBuffer.addBuffer(zzLine14("CFG", cfg))
+	cfgMap := map[string]interface{}{"lang": "go", "bufsize": cfg.MaxBufSize, "timeout": cfg.Timeout, "protocol": cfg.Protocol}
+	if cfg.Binary {
+		cfgMap["binary"] = true
+	}
+	if cfg.Directory {
+		cfgMap["directory"] = true
+	}
+	if cfg.Overwrite {
+		cfgMap["overwrite"] = true
+	}
+	if cfg.Quiet {
+		cfgMap["quiet"] = true
+	}
+	if cfg.Fork {
+		cfgMap["fork"] = true
+	}
+	if cfg.TmuxOutputJunk {
+		cfgMap["tmux_output_junk"] = true
+	}
+	cfgMap["tmux_pane_width"] = cfg.TmuxPaneColumns
+	actJS, _ := json.Marshal(act)
+	cfgJS, _ := json.Marshal(cfgMap)
+	r.stdinBuffer.addBuffer([]byte("#ACT:" + encodeString(string(actJS)) + actEnd))
+	r.stdoutBuffer.addBuffer([]byte("#CFG:" + encodeString(string(cfgJS)) + cfgEnd))
 	r.handshake()
 
 	verifAssert(len(r.osStdinChan) == 1, "not exactly one ACT forwarded to the server")
 	fwd := <-r.osStdinChan
-	s, err := decodeRelayBufferString("ACT", fwd[:len(fwd)-1])
+	s, err := decodeRelayBufferString("ACT", zzStripEnd14(fwd))
 	verifAssert(err == nil, "forwarded ACT does not decode")
 	var act2 transferAction
 	verifAssert(json.Unmarshal([]byte(s), &act2) == nil, "forwarded ACT does not parse")
@@ -82,7 +118,7 @@ func zzH_C14_handshake() {
 	verifAssert(r.relayStatus.Load() == kRelayTransferring, "confirmed handshake does not end in transferring")
 	verifAssert(len(r.bypassTmuxChan) == 1, "not exactly one CFG forwarded to the client")
 	fwd = <-r.bypassTmuxChan
-	s, err = decodeRelayBufferString("CFG", fwd[:len(fwd)-1])
+	s, err = decodeRelayBufferString("CFG", zzStripEnd14(fwd))
 	verifAssert(err == nil, "forwarded CFG does not decode")
 	var cfg2 transferConfig
 	verifAssert(json.Unmarshal([]byte(s), &cfg2) == nil, "forwarded CFG does not parse")
@@ -102,8 +138,23 @@ func zzH_C14_handshake() {
 	verifAssert(cfg2.Protocol == cfg.Protocol, "server setting changed: protocol")
 	verifAssert(cfg2.MaxBufSize == cfg.MaxBufSize, "server setting changed: bufsize")
 	verifAssert(cfg2.Timeout == cfg.Timeout, "server setting changed: timeout")
-	verifAssert(cfg2.Newline == cfg.Newline, "server setting changed: newline")
+	// the line ending the client is told to use is the one a direct transfer would use: "!\n" for a Windows server
+	// reached in-band, the plain one otherwise (a connected tunnel carries plain lines)
+	wantNL := "\n"
+	if r.trigger.winServer && !act.TunnelConnected {
+		wantNL = "!\n"
+	}
+	verifAssert(cfg2.Newline == wantNL, "the line ending forwarded to the client differs from a direct transfer's")
 	verifReach("confirmed")
+}
+
+// a forwarded line without its terminator ("\n" or the Windows "!\n")
+func zzStripEnd14(b []byte) []byte {
+	b = b[:len(b)-1]
+	if len(b) > 0 && b[len(b)-1] == '!' {
+		b = b[:len(b)-1]
+	}
+	return b
 }
 
 type zzGate14 struct{ ch chan []byte }
